@@ -161,9 +161,23 @@ func (fr *Frame) deferSites() []*ssa.Defer {
 	return ds
 }
 
+// runDefers executes the armed deferred calls in reverse order. The ghost
+// flag $panicking.<depth> says whether a panic is in flight; a deferred call
+// that panics replaces it, recover() clears it, and the remaining deferred
+// calls run in either case (as in Go).
 func (fr *Frame) runDefers(st *State, panicking bool) *State {
 	vc := fr.vc
+	pk, pvn := fr.panicGhost()
+	vc.heapSorts[pk] = SBool
+	vc.heapSorts[pvn] = SIface
+	if _, ok := st.heaps[pk]; !ok {
+		st.heaps[pk] = BoolLit(panicking)
+		st.heaps[pvn] = vc.ss.Zero(SIface)
+	}
 	ds := fr.deferSites()
+	savedRunning := fr.inPanicDefers
+	fr.inPanicDefers = true
+	defer func() { fr.inPanicDefers = savedRunning }()
 	for i := len(ds) - 1; i >= 0; i-- {
 		d := ds[i]
 		armed, ok := st.armed[d]
@@ -172,12 +186,21 @@ func (fr *Frame) runDefers(st *State, panicking bool) *State {
 		}
 		run := st.Clone()
 		run.Assume(armed)
+		before := len(fr.panics)
 		_, after := fr.execCall(d, run)
+		raised := append([]panicState{}, fr.panics[before:]...)
+		fr.panics = fr.panics[:before]
 		skip := st.Clone()
 		skip.Assume(Not(armed))
 		var sts []*State
 		if after != nil && after.reach.S != "false" {
 			sts = append(sts, after)
+		}
+		for _, p := range raised {
+			ps := p.st
+			ps.heaps[pk] = True
+			ps.heaps[pvn] = p.val
+			sts = append(sts, ps)
 		}
 		if skip.reach.S != "false" && armed.S != "true" {
 			sts = append(sts, skip)
@@ -185,10 +208,7 @@ func (fr *Frame) runDefers(st *State, panicking bool) *State {
 		if len(sts) == 0 {
 			return nil
 		}
-		st = vc.mergeStates(sts, "defer")
-		if len(sts) > 1 {
-			st = st.Clone()
-		}
+		st = vc.mergeStates(sts, "defer").Clone()
 		st.armed[d] = False
 	}
 	return st
@@ -198,25 +218,50 @@ func (fr *Frame) panicGhost() (string, string) {
 	return fmt.Sprintf("$panicking.%d", fr.depth), fmt.Sprintf("$panicval.%d", fr.depth)
 }
 
+// afterDefers splits the state after the deferred calls: a panic still in
+// flight leaves the function exceptionally; otherwise execution continues.
+func (fr *Frame) afterDefers(after *State) *State {
+	if after == nil {
+		return nil
+	}
+	pk, pvn := fr.panicGhost()
+	still := after.heaps[pk]
+	if still.S != "false" {
+		un := after.Clone()
+		un.Assume(still)
+		if un.reach.S != "false" {
+			delete(un.heaps, pk)
+			fr.escaped = append(fr.escaped, panicState{st: un, val: after.heaps[pvn]})
+		}
+	}
+	cont := after.Clone()
+	cont.Assume(Not(still))
+	delete(cont.heaps, pk)
+	delete(cont.heaps, pvn)
+	if cont.reach.S == "false" {
+		return nil
+	}
+	return cont
+}
+
 // finishPanics runs the deferred calls on the exceptional exits.
 func (fr *Frame) finishPanics() {
 	vc := fr.vc
-	if len(fr.panics) == 0 || fr.inPanicDefers {
+	if len(fr.panics) == 0 {
+		fr.panics = fr.escaped
+		fr.escaped = nil
 		return
 	}
 	if len(fr.deferSites()) == 0 {
+		fr.panics = append(fr.panics, fr.escaped...)
+		fr.escaped = nil
 		return
 	}
 	var sts []*State
 	for _, p := range fr.panics {
 		sts = append(sts, p.st)
 	}
-	merged := vc.mergeStates(sts, "panic")
-	if len(sts) > 1 {
-		merged = merged.Clone()
-	} else {
-		merged = merged.Clone()
-	}
+	merged := vc.mergeStates(sts, "panic").Clone()
 	var pv Term
 	for i := len(fr.panics) - 1; i >= 0; i-- {
 		if i == len(fr.panics)-1 {
@@ -231,16 +276,9 @@ func (fr *Frame) finishPanics() {
 	merged.heaps[pk] = True
 	merged.heaps[pvn] = vc.Define("panicval", pv)
 	fr.panics = nil
-	fr.inPanicDefers = true
 	after := fr.runDefers(merged, true)
-	fr.inPanicDefers = false
-	if after == nil {
-		return
-	}
-	still := after.heaps[pk]
-	rec := after.Clone()
-	rec.Assume(Not(still))
-	if rec.reach.S != "false" {
+	rec := fr.afterDefers(after)
+	if rec != nil {
 		// recovered: the function returns its named results (or zero values)
 		var rs []Val
 		res := fr.fn.Signature.Results()
@@ -263,26 +301,24 @@ func (fr *Frame) finishPanics() {
 		}
 		fr.rets = append(fr.rets, retState{rec, rs, token.NoPos})
 	}
-	un := after.Clone()
-	un.Assume(still)
-	if un.reach.S != "false" {
-		fr.panics = append(fr.panics, panicState{st: un, val: after.heaps[pvn]})
-	}
+	// panics raised while no deferred call was left to run, plus everything that escaped
+	fr.panics = append(fr.panics, fr.escaped...)
+	fr.escaped = nil
 }
 
 func (fr *Frame) builtinRecover(st *State) Val {
 	vc := fr.vc
 	// recover() is effective only in a function deferred by the panicking function
-	for f := fr.parent; f != nil; f = f.parent {
-		if f.inPanicDefers {
-			pk, pvn := f.panicGhost()
-			still := st.heaps[pk]
-			pv := st.heaps[pvn]
-			res := Ite(still, pv, vc.ss.Zero(SIface))
-			st.heaps[pk] = False
-			return TV(vc.Define("recovered", res))
+	if f := fr.parent; f != nil && f.inPanicDefers {
+		pk, pvn := f.panicGhost()
+		still, ok := st.heaps[pk]
+		if !ok {
+			return TV(vc.ss.Zero(SIface))
 		}
-		break
+		pv := st.heaps[pvn]
+		res := Ite(still, pv, vc.ss.Zero(SIface))
+		st.heaps[pk] = False
+		return TV(vc.Define("recovered", res))
 	}
 	return TV(vc.ss.Zero(SIface))
 }
@@ -478,6 +514,19 @@ func VerifyFunction(L *Loaded, name string, ct *Contract, prop string) (res *Fun
 	}
 	st.reach = vc.Define("pre", st.reach)
 	vc.entry = st.Clone()
+	// ghost counters advanced by every call of this function
+	if ct != nil {
+		for _, gi := range ct.GhostInc {
+			for _, p := range fn.Params {
+				if p.Name() == gi[1] {
+					gname := "$g." + gi[0]
+					g := vc.ghost(st, gname, Sort("(Array Ptr Int)"))
+					key := asPtr(fr.val(p))
+					vc.setGhost(st, gname, Sto(g, key, Add(Sel(g, key, SInt), IntLit(1))))
+				}
+			}
+		}
+	}
 	// vacuity: the precondition must be satisfiable
 	if ct != nil && len(ct.Requires) > 0 {
 		o := vc.Oblige("vacuity", "pre-sat", fn.Pos(), st, False, "precondition (with type invariants) must be satisfiable")
